@@ -39,11 +39,15 @@ def parseOp (s : String) : Option Op :=
   | ['q'] => some (.exec .sel) | ['I'] => some .invalidate
   | ['D'] => some .disarm
   | ['N'] => some .connect | ['G'] => some .gc | ['A'] => some .autocommit
+  | ['U'] => some .readUnc | ['L'] => some .logToken | ['O'] => some .otherOpt
+  | ['L', 'A'] => some .tokenAuto
   | ['F', p, k] =>
     match (match p with | 'u' => some FPoint.cursor | 'x' => some .execute | 'c' => some .commit
                          | 'r' => some .rollback | _ => none),
-          (match k with | 'e' => some FKind.err | 'd' => some .disc | _ => none) with
+          (match k with | 'e' => some FKind.err | 'd' => some .disc | 'k' => some .kbi | _ => none) with
     | some .cursor, some .err => none
+    | some .cursor, some .kbi => none
+    | some .execute, some .kbi => none
     | some p, some k => some (.arm p k)
     | _, _ => none
   | c :: rest =>
@@ -64,6 +68,7 @@ def opHandle? : Op → Option Nat
 def showRes : Res → String
   | .ok => "ok" | .invalidRequest => "IRE" | .pendingRollback => "PRE"
   | .resourceClosed => "RCE" | .integrity => "IE" | .operational => "OE" | .disconnect => "DISC"
+  | .interrupted => "KBI"
 
 def showOpt : Option Nat → String
   | some n => toString n | none => "N"
@@ -80,8 +85,10 @@ def showState (r : Res) (c : Conn) (sel : Option Data) : String :=
     showOpt c.transaction, showOpt c.nested, showOpt c.ctxMgr,
     (if c.txns.isEmpty then "-" else String.join (c.txns.map (fun t => b2s t.active))),
     showNatList (sortNats c.db.committed),
-    (if c.hasDbapi then showNatList (sortNats c.db.raw.working) else "x"),
-    (if c.hasDbapi then toString c.db.raw.rid ++ (if c.db.raw.autocommit then "a" else "") else "x"),
+    (if c.zombie then "DEAD" else if c.hasDbapi then showNatList (sortNats c.db.raw.working) else "x"),
+    (if c.zombie then toString c.db.raw.rid ++ "!"
+     else if c.hasDbapi then toString c.db.raw.rid ++ (if c.db.raw.autocommit then "a" else "")
+        ++ (if c.db.raw.readUnc then "u" else "") else "x"),
     showIdle c.db.idle,
     toString c.warns ]
 
@@ -103,7 +110,7 @@ def runOps : Bool → Conn → List Op → Option (List String)
     let gone' := match op with
       | .gc => true
       | .connect => false
-      | _ => gone
+      | _ => gone || r == .interrupted   -- after an interrupt the program only lets go of the Connection
     match runOps gone' c' ops with
     | some rest => some (showState r c' sel :: rest)
     | none => none
@@ -116,20 +123,30 @@ def parseListener : String → Option Listener
   | "none" => some .none | "force" => some .forceDisc | "nopool" => some .noPoolInval
   | _ => none
 
-def runAll (rs : ResetStyle) (ls : Listener) (ops : String) : String :=
+def parseEngineOpts : String → Option (List Bool)
+  | "none" => some [] | "token" => some [false] | "auto" => some [true]
+  | "token+auto" => some [false, true]
+  | _ => none
+
+def runAll (rs : ResetStyle) (ls : Listener) (ops : String) (eo : List Bool := []) : String :=
   match (if ops == "-" then some [] else (ops.splitOn ";").mapM parseOp) with
   | some ops =>
-    match runOps false (Conn.connect (DB.init rs ls)) ops with
+    match runOps false (Conn.connect (DB.init rs ls eo)) ops with
     | some out => if out.isEmpty then "-" else "|".intercalate out
     | none => "bad-op"
   | none => "bad-op"
 
-/-- `run <reset> <ops>` (no handle_error listener), `runl <reset> <listener> <ops>` -/
+/-- `run <reset> <ops>` (no handle_error listener), `runl <reset> <listener> <ops>`,
+    `rune <reset> <engine-opts> <ops>` -/
 def handle : List String → String
   | ["run", reset, ops] =>
     match parseReset reset with
     | some rs => runAll rs .none ops
     | none => "bad-op"
+  | ["rune", reset, eo, ops] =>
+    match parseReset reset, parseEngineOpts eo with
+    | some rs, some eo => runAll rs .none ops eo
+    | _, _ => "bad-op"
   | ["runl", reset, listener, ops] =>
     match parseReset reset, parseListener listener with
     | some rs, some ls => runAll rs ls ops
